@@ -19,9 +19,9 @@ CHECKS = {
  "C17": dict(engine="enum", technique="bounded-exhaustive argument sweep of every Result-returning API under catch_unwind (debug assertions + overflow checks on)",
    text="Every listed fallible API is called over explicit finite argument pools (strings, label lists/maps of every cardinality class, f64 bucket lists/parameters, registry histories, families of every MetricType incl. mismatched payloads, failing writers); each call must return, and documented-invalid input must give Err.",
    note="memory-exhausting sizes excluded; APIs documented to panic excluded", ref="6 C17"),
- "C06": dict(engine="statespace", technique="explicit-state BFS (stateright) to a fixpoint over register/unregister histories re-executed on the real Registry vs. reference registry",
-   text="All histories of register/unregister over an 8 (thorough 11) collector pool with overlapping names/help/const/variable labels and multi-descriptor collectors are explored to a fixpoint (state = real registry dump + reference state); every call's result class and gather() after every call are compared with the reference; tracelessness of failed calls is judged behaviourally by exploring every continuation.",
-   note="collector pool is fixed; collisions of 64-bit ids and disagreement inside one collector's own descriptor list are not judged", ref="6 C06"),
+ "C06": dict(engine="statespace+vsched", technique="explicit-state BFS (stateright) to a fixpoint over register/unregister histories re-executed on the real Registry vs. reference registry; plus exhaustive interleavings (vsched) of concurrent register/unregister/gather with a linearizability check",
+   text="All histories of register/unregister over an 8 (thorough 11) collector pool with overlapping names/help/const/variable labels and multi-descriptor collectors are explored to a fixpoint (state = real registry dump + reference state); every call's result class and gather() after every call are compared with the reference; tracelessness of failed calls is judged behaviourally by exploring every continuation. In addition 2-3 threads issue register/unregister/gather concurrently on one registry under the vsched scheduler (all program pairs of <=2 calls and all 1-call triples); every interleaving must be linearizable w.r.t. the same reference.",
+   note="collector pool is fixed; collisions of 64-bit ids and disagreement inside one collector's own descriptor list are not judged", ref="6 C06, 13"),
  "C12": dict(engine="statespace", technique="exhaustive enumeration of operation histories (stateright BFS, no state merging) on real local metrics vs. pending/flushed ledger; deeper merged-state BFS in addition",
    text="Every history up to depth 5 (vector models 4; thorough 6/5) over the operation menus of six local-metric models is replayed on fresh real objects and compared with a ledger after every step; a second BFS merges equal ledger states and reaches depth 7.",
    note="<=3 live local handles, 2 keys, fixed update amounts (incl. a negative observation)", ref="6 C12"),
